@@ -11,6 +11,10 @@ use std::collections::HashSet;
 use Flavour::{Async as A, Sync as S};
 
 pub struct SeqSuite {
+    /// breadth-first over the reference model's abstract states instead of all
+    /// sequences: every (state, action) edge up to the depth is replayed once
+    /// on the real code along the shortest call sequence that reaches it
+    pub graph: bool,
     pub name: &'static str,
     pub alphabet: Vec<Op>,
     pub depth: usize,
@@ -68,7 +72,8 @@ pub fn suites(check: &str, thorough: bool) -> (Vec<SeqSuite>, String) {
         match check {
         "C18" => {
             let mut v = vec![SeqSuite {
-                name: "c18-full",
+                graph: false,
+                    name: "c18-full",
                 alphabet: full_alphabet(),
                 depth: if thorough { 4 } else { 3 },
                 caps: caps4.clone(),
@@ -79,7 +84,8 @@ pub fn suites(check: &str, thorough: bool) -> (Vec<SeqSuite>, String) {
             }];
             // deeper over the value-moving core
             v.push(SeqSuite {
-                name: "c18-core",
+                graph: false,
+                    name: "c18-core",
                 alphabet: vec![
                     Op::TrySend,
                     Op::SendT(1),
@@ -101,10 +107,23 @@ pub fn suites(check: &str, thorough: bool) -> (Vec<SeqSuite>, String) {
                 ctor: A,
                 observe: true,
             });
+            // transition coverage of the model's state graph, much deeper
+            v.push(SeqSuite {
+                graph: true,
+                name: "c18-graph",
+                alphabet: full_alphabet(),
+                depth: if thorough { 6 } else { 4 },
+                caps: caps4.clone(),
+                flavours: vec![(A, A), (S, S)],
+                class: Class::DP,
+                ctor: A,
+                observe: true,
+            });
             // the refill of the buffer from a pending sender by an async receive
             // needs seven calls
             v.push(SeqSuite {
-                name: "c18-refill",
+                graph: false,
+                    name: "c18-refill",
                 alphabet: vec![
                     Op::TrySend,
                     Op::FSend(0),
@@ -123,7 +142,8 @@ pub fn suites(check: &str, thorough: bool) -> (Vec<SeqSuite>, String) {
             });
             // the sync side with timed calls and the iterator, deeper
             v.push(SeqSuite {
-                name: "c18-sync",
+                graph: false,
+                    name: "c18-sync",
                 alphabet: vec![
                     Op::TrySend,
                     Op::TrySendO,
@@ -149,7 +169,8 @@ pub fn suites(check: &str, thorough: bool) -> (Vec<SeqSuite>, String) {
         }
         "C12" => (
             vec![SeqSuite {
-                name: "c12-handles",
+                graph: false,
+                    name: "c12-handles",
                 alphabet: {
                     let mut a = Vec::new();
                     for side in [Side::S, Side::R] {
@@ -174,6 +195,7 @@ pub fn suites(check: &str, thorough: bool) -> (Vec<SeqSuite>, String) {
         "C16" => (
             vec![
                 SeqSuite {
+                    graph: false,
                     name: "c16-polls",
                     alphabet: vec![
                         Op::FSend(0),
@@ -197,6 +219,7 @@ pub fn suites(check: &str, thorough: bool) -> (Vec<SeqSuite>, String) {
                     observe: false,
                 },
                 SeqSuite {
+                    graph: false,
                     name: "c16-two-sends",
                     alphabet: vec![
                         Op::FSend(0),
@@ -218,6 +241,7 @@ pub fn suites(check: &str, thorough: bool) -> (Vec<SeqSuite>, String) {
                     observe: false,
                 },
                 SeqSuite {
+                    graph: false,
                     name: "c16-two-recvs",
                     alphabet: vec![
                         Op::FRecv(0),
@@ -239,6 +263,7 @@ pub fn suites(check: &str, thorough: bool) -> (Vec<SeqSuite>, String) {
                     observe: false,
                 },
                 SeqSuite {
+                    graph: false,
                     name: "c16-stream",
                     alphabet: vec![
                         Op::FStream(0),
@@ -385,6 +410,8 @@ pub struct SeqStats {
     pub violations: Vec<ProgRecord>,
     pub sample: Option<ProgRecord>,
     pub max_depth: usize,
+    pub graph_states: u64,
+    pub graph_edges: u64,
 }
 
 fn hash_of<T: std::hash::Hash>(t: &T) -> u64 {
@@ -392,6 +419,153 @@ fn hash_of<T: std::hash::Hash>(t: &T) -> u64 {
     let mut s = std::collections::hash_map::DefaultHasher::new();
     t.hash(&mut s);
     s.finish()
+}
+
+fn build(su: &SeqSuite, cap: Cap, fl: (Flavour, Flavour), ops: &[Op]) -> Program {
+    let mut full = Vec::new();
+    for o in ops.iter() {
+        full.push(*o);
+        if su.observe {
+            full.push(Op::ObsAll);
+        }
+    }
+    Program {
+        name: format!(
+            "{}/{:?}/{:?}{:?}/{}",
+            su.name,
+            cap,
+            fl.0,
+            fl.1,
+            ops.iter().map(|o| format!("{:?}", o).replace(' ', "")).collect::<Vec<_>>().join(",")
+        ),
+        cap,
+        class: su.class,
+        ctor: su.ctor,
+        via: Conv::Clone,
+        threads: vec![ThreadSpec {
+            s: Some(fl.0),
+            r: Some(fl.1),
+            ops: full,
+        }],
+        env: Env {
+            par: 2,
+            spin: 1,
+            spurious_park: None,
+            preempt: None,
+            stall: 0,
+        },
+        pre: 0,
+    }
+}
+
+fn next_allowed(o: Op, fl: (Flavour, Flavour), ops: &[Op]) -> bool {
+    if o == Op::Next && fl.1 == A {
+        return false;
+    }
+    if o == Op::Next && ops.iter().any(|x| matches!(x, Op::NewHandle(Side::R, c) if *c != Conv::Clone)) {
+        return false;
+    }
+    true
+}
+
+fn execute(p: &Program, depth: usize, full_depth: usize, st: &mut SeqStats, cfg: &RunCfg) {
+    if let Some(a) = &st.after {
+        if *a == p.name {
+            st.after = None;
+        }
+        return;
+    }
+    let r = runner::run_program(st.sequences as usize, p, cfg, "default");
+    st.sequences += 1;
+    st.max_depth = st.max_depth.max(depth);
+    st.model_states += r.model_states;
+    st.model_transitions += r.model_transitions;
+    st.model_outcomes += r.model_outcomes;
+    if let Some(s) = &r.sample {
+        use crate::hist::Res;
+        let nontrivial = s.calls.iter().any(|c| {
+            matches!(c.res, Res::Val(_) | Res::Err(_) | Res::Panicked | Res::End)
+                || matches!(&c.res, Res::Drained(n, _) if *n > 0)
+                || (c.tag.is_some() && c.res == Res::Ok)
+                || matches!(c.op, Op::NewHandle(..) | Op::DropHandle(_) | Op::Close(_))
+        });
+        if nontrivial {
+            st.distinct.insert(hash_of(&p.name));
+        }
+    }
+    if r.violation.is_some() || r.foreign.is_some() || !r.completed {
+        let mut r = r;
+        r.program = Some(p.clone());
+        if st.violations.len() < 50 {
+            st.violations.push(r);
+        }
+    } else if st.sample.is_none() && depth == full_depth {
+        let mut r = r;
+        r.program = Some(p.clone());
+        st.sample = Some(r);
+    }
+}
+
+/// Breadth-first over the reference model's abstract states (transition
+/// coverage): every call sequence popped from the frontier is the shortest one
+/// found to its state; each of its outgoing (state, action) edges is replayed
+/// on the real code once.
+fn run_graph(su: &SeqSuite, cap: Cap, fl: (Flavour, Flavour), shard: (usize, usize), st: &mut SeqStats, cfg: &RunCfg) {
+    const GRAPH_SHARDS: usize = 16;
+    if shard.0 >= GRAPH_SHARDS.min(shard.1) {
+        return;
+    }
+    let nsh = GRAPH_SHARDS.min(shard.1);
+    let mut seen: HashSet<crate::model::World> = HashSet::new();
+    let mut frontier: std::collections::VecDeque<(Vec<Op>, Shape)> = std::collections::VecDeque::new();
+    frontier.push_back((
+        Vec::new(),
+        Shape {
+            hs: 1,
+            hr: 1,
+            live: [0; 4],
+        },
+    ));
+    for k in crate::model::abstract_states_after(&build(su, cap, fl, &[])) {
+        seen.insert(k);
+    }
+    while let Some((path, shape)) = frontier.pop_front() {
+        if path.len() >= su.depth {
+            continue;
+        }
+        for o in &su.alphabet {
+            let mut sh = Shape {
+                hs: shape.hs,
+                hr: shape.hr,
+                live: shape.live,
+            };
+            if !sh.step(*o) || !next_allowed(*o, fl, &path) {
+                continue;
+            }
+            let mut ops = path.clone();
+            ops.push(*o);
+            let p = build(su, cap, fl, &ops);
+            let ex = crate::model::explore(&p, cfg.model_cap);
+            if ex.can_deadlock || ex.outcomes.is_empty() || ex.capped {
+                st.skipped_blocking += 1;
+                continue;
+            }
+            st.graph_edges += 1;
+            if (hash_of(&p.name) as usize) % nsh == shard.0 {
+                execute(&p, ops.len(), su.depth, st, cfg);
+            }
+            let mut fresh = false;
+            for k in crate::model::abstract_states_after(&p) {
+                if seen.insert(k) {
+                    fresh = true;
+                }
+            }
+            if fresh {
+                frontier.push_back((ops, sh));
+            }
+        }
+    }
+    st.graph_states += seen.len() as u64;
 }
 
 #[allow(clippy::too_many_arguments)]
@@ -541,10 +715,16 @@ pub fn run(check: &str, thorough: bool, shard: (usize, usize), after: Option<Str
         violations: Vec::new(),
         sample: None,
         max_depth: 0,
+        graph_states: 0,
+        graph_edges: 0,
     };
     for su in &suites {
         for &cap in &su.caps {
             for &fl in &su.flavours {
+                if su.graph {
+                    run_graph(su, cap, fl, shard, &mut st, &cfg);
+                    continue;
+                }
                 let mut ops = Vec::new();
                 rec(
                     su,
